@@ -436,6 +436,18 @@ func (f *frame) enterLoop(li *loopInfo, es []edge) (string, *State, error) {
 		}
 		cur = and(cur, g)
 	}
+	if f.fc != nil && f.fc.Decreases[li.ordinal] != nil {
+		c := f.fc.Decreases[li.ordinal]
+		env := f.invEnv(li, st, phiHdr)
+		v, err := env.compile(c.Expr)
+		if err != nil {
+			return "", nil, fmt.Errorf("%s: loop %d decreases: %v", c.Where, li.ordinal, err)
+		}
+		if f.loopVariant == nil {
+			f.loopVariant = map[*loopInfo]string{}
+		}
+		f.loopVariant[li] = t.B.define(fmt.Sprintf("variant@loop%d", li.ordinal), "Int", v.term)
+	}
 	return cur, st, nil
 }
 
@@ -465,6 +477,17 @@ func (f *frame) backEdge(li *loopInfo, from *ssa.BasicBlock, cond string, st *St
 			return fmt.Errorf("%s: loop %d invariant %s: %v", c.Where, li.ordinal, c.Name, err)
 		}
 		f.addObl("inv-pres", fmt.Sprintf("loop%d.%s", li.ordinal, c.Name), cond, g, c, li.header.Instrs[0].Pos(), invProps(f.fc, c))
+	}
+	// termination: where the loop repeats its variant was not negative and is smaller now
+	if f.fc != nil && f.fc.Decreases[li.ordinal] != nil && f.loopVariant[li] != "" {
+		c := f.fc.Decreases[li.ordinal]
+		env := f.invEnv(li, st, phiIn)
+		v, err := env.compile(c.Expr)
+		if err != nil {
+			return fmt.Errorf("%s: loop %d decreases: %v", c.Where, li.ordinal, err)
+		}
+		head := f.loopVariant[li]
+		f.addObl("variant", fmt.Sprintf("loop%d.decreases", li.ordinal), cond, fmt.Sprintf("(and (>= %s 0) (< %s %s))", head, v.term, head), c, li.header.Instrs[0].Pos(), nil)
 	}
 	return nil
 }
